@@ -448,7 +448,12 @@ pub fn generate(seed: u64, index: u64, cart_type: u8, rom_code: u8) -> Program {
       }
       9 => {
         // device register read stored to work RAM: timing becomes data
-        a.ldh_from(*rng.pick(&[0x04u8, 0x05, 0x44, 0x41, 0x0f]));
+        let reg = *rng.pick(&[0x04u8, 0x05, 0x44, 0x41, 0x0f]);
+        if rng.chance(1, 3) {
+          a.b(&[0xfa, reg, 0xff]); // the long form LD A,(0xFFxx)
+        } else {
+          a.ldh_from(reg);
+        }
         a.ld_a_to(0xc200 + rng.below(0x100) as u16);
         f.device_reads += 1;
         desc.push_str("devread ");
@@ -474,7 +479,12 @@ pub fn generate(seed: u64, index: u64, cart_type: u8, rom_code: u8) -> Program {
       12 => {
         // timer register writes mid-program
         a.ld_a(rng.u8());
-        a.ldh_to(*rng.pick(&[0x04u8, 0x05, 0x06]));
+        let reg = *rng.pick(&[0x04u8, 0x05, 0x06]);
+        if rng.chance(1, 3) {
+          a.ld_a_to(0xff00 | reg as u16); // the long form LD (0xFFxx),A
+        } else {
+          a.ldh_to(reg);
+        }
       }
       _ => {
         a.b(&[0xc5, 0xd5, 0xe5, 0xf5]);
